@@ -160,3 +160,13 @@ Theorem C01_solver_model_no_clause_lost : forall U P, WF U -> forall A a_ge a_co
      exists c, nth_error (s_db st) (N.to_nat id) = Some c /\ falsified (ps_trail (s_ps st)) (cl_lits c) = false) /\
   (forall x, In x (s_asserts st ++ s_units st) -> plit_true (s_ps st) (fst x) = true).
 Proof. exact solve_sat_no_clause_lost. Qed.
+
+(* ... and nothing is left to decide there: decide proposes nothing on the final state, every installed
+   solvable has been handed to the encoder, and every Requires clause of the database whose parent is
+   installed has an installed candidate (or no candidate at all, in which case it is an assertion) *)
+Theorem C01_solver_model_decided : forall U P, WF U -> forall A a_ge a_conflict fuel efuel (a0 : A) order sol st,
+  solve U P a_ge a_conflict fuel efuel a0 order = (OSat sol, st) -> pr_soft P = [] ->
+  Decided U A a_ge st /\
+  forall c p r cands, In c (s_db st) -> ck c = KRequires p r cands -> lit_istrue (tr_lits st) (p, true) = true ->
+    concat cands = [] \/ exists x, In x (concat cands) /\ pval (tr_lits st) (VSol x) = Some true.
+Proof. exact solve_sat_decided. Qed.
